@@ -185,6 +185,7 @@ func (c *Ctx) ruleThreeWaySelect(rr *RuleRep, rSucc *RuleRep, sites []*reqSite) 
 		for _, sel := range s.Selects {
 			cases := selectCases(sel)
 			var closedC, ctxC, waitC *selCase
+			var others []*selCase
 			for i := range cases {
 				cs := &cases[i]
 				if cs.State == nil || cs.State.Dir != types.RecvOnly {
@@ -197,6 +198,21 @@ func (c *Ctx) ruleThreeWaySelect(rr *RuleRep, rSucc *RuleRep, sites []*reqSite) 
 					ctxC = cs
 				case s.RegChan != nil && c.ResolveQ(s.F, cs.State.Chan, s.Q) == s.RegChan:
 					waitC = cs
+				default:
+					others = append(others, cs)
+				}
+			}
+			if rSucc != nil && waitC != nil {
+				// a wait shared between the QoS levels: a case on the waiter of another acknowledgement kind must be dead at
+				// this level (its channel nil on the paths of this level), or that acknowledgement completes this stage too
+				for _, cs := range others {
+					rv := c.ResolveQ(s.F, cs.State.Chan, s.Q)
+					if isNilConst(stripConv(rv)) {
+						continue
+					}
+					if other := chanElemName(cs.State.Chan.Type()); specKind(other) && other != s.AckT {
+						rSucc.Bad(key+"/other-waiter", sel.Pos(), "the wait for %s also ends on a receive from a %s waiter that is registered at this level: an acknowledgement of the wrong kind carrying this identifier completes the stage", s.AckT, other)
+					}
 				}
 			}
 			if rr != nil {
